@@ -330,7 +330,7 @@ def run(ctx) -> None:
               f"radial bin index {idx.key()[:100]} is not (alpha - inner)*nbins_radial/(outer - inner): "
               f"slope {slope.key()[:60]}, value at alpha=inner {at_inner.key()[:60]}", key_detail="index")
 
-    dp = repo.cls(MEAS, "DiffractionPatterns")
+    repo.cls(MEAS, "DiffractionPatterns")  # anchor
     polar_binning = repo.method(MEAS, "DiffractionPatterns", "polar_binning")
     radial_binning_ = repo.method(MEAS, "DiffractionPatterns", "_radial_binning")
     integrate_radial = repo.method(MEAS, "DiffractionPatterns", "integrate_radial")
